@@ -725,6 +725,18 @@ def r_py_float_extract(rep, f):
                     tys = [inner_ty(mc.get("ty")) for mc in tast.find(cb["body"], lambda z: z.get("k") == "MethodCall" and z.get("name") == "extract")]
             if tys:
                 judge("R-PY-FLOAT:%s:%s" % (short, kname), kname, tys, call)
+        # (3) lookups through a local closure: `let item = |key| ..get_item(key)..; let max_step = item("max_step").and_then(|v| v.extract().ok())`
+        for call, parents in tast.find_with_parents(b["body"], lambda q: q.get("k") == "Call" and not (q.get("def") or "").startswith(PY) and any(is_key(a_) for a_ in q.get("args", []))
+                                                    and isinstance(q.get("f"), dict) and q["f"].get("k") == "Path" and q["f"].get("res") == "local"):
+            kname = next(a_["v"] for a_ in call["args"] if is_key(a_))
+            cont = next((a for a in reversed(parents) if a.get("k") in ("Let", "ExprStmt", "Semi", "Assign")), None)
+            if cont is None:
+                continue
+            exs = list(tast.find(cont, lambda z: z.get("k") == "MethodCall" and z.get("name") == "extract"))
+            for cl in tast.find(cont, lambda z: z.get("k") == "Closure" and (z.get("def") or "") in f.bodies):
+                exs += tast.find(f.bodies[cl["def"]]["body"], lambda z: z.get("k") == "MethodCall" and z.get("name") == "extract")
+            if exs:
+                judge("R-PY-FLOAT:%s:%s" % (short, kname), kname, [inner_ty(mc.get("ty")) for mc in exs], exs[0])
     if n < 5:
         rep.inconc("R-PY-FLOAT", "R-PY-FLOAT:floor", "only %d float-valued settings found (expected >= 5: direction, rtol, atol, max_step, first_step)" % n)
 
